@@ -11,26 +11,43 @@ import eng_generic
 REPO = 'github.com/henrylee2cn/erpc/v6'
 
 
+STD_OK = ('runtime.', 'sync.', 'sync/atomic', 'internal/')
+
+
+def _origin(frames):
+    """First frame of an access stack that is not Go runtime / standard library: who performed the access.
+    Returns (kind, frame): kind is 'repo', 'harness' or 'other' (a third-party module)."""
+    for fn, path, line in frames:
+        if fn.startswith('verifharness') or fn.startswith('main.'):
+            return 'harness', (fn, os.path.basename(path), line)
+        first = fn.split('/')[0]
+        if '/' not in fn or '.' not in first:   # standard library (bufio.(*Reader).Read, net/http..., runtime...): look at its caller
+            continue
+        if fn.startswith(REPO):
+            return 'repo', (fn, os.path.basename(path), line)
+        return 'other', (fn, os.path.basename(path), line)
+    return 'other', None
+
+
 def parse_reports(stderr):
+    """A report is attributed, per access, to the first non-standard-library frame of its stack: a race on a
+    standard-library object (a bufio.Reader, a bytes.Buffer) used from two places of the repository is a race
+    of the repository."""
     reports = []
     for blk in re.split(r'={18,}\n', stderr):
         if 'WARNING: DATA RACE' not in blk:
             continue
-        # split into access sections
         secs = re.split(r'\n\n', blk)
         acc = [s for s in secs if re.match(r'\s*(WARNING: DATA RACE\n)?(Read|Write|Previous read|Previous write|Atomic|Previous atomic)', s.strip())]
-        tops = []
+        tops, kinds = [], []
         for s in acc[:2]:
             frames = re.findall(r'^\s{2}(\S+)\(.*\)\n\s+(\S+):(\d+)', s, re.M)
-            top = None
-            for fn, path, line in frames:
-                if fn.startswith('runtime.') or fn.startswith('sync.') or fn.startswith('sync/atomic') or fn.startswith('internal/'):
-                    continue
-                top = (fn, os.path.basename(path), line)
-                break
+            frames = [f for f in frames if not f[0].startswith('main.main')]
+            kind, top = _origin(frames)
             tops.append(top)
+            kinds.append(kind)
         if len(tops) == 2 and all(tops):
-            reports.append({'a': tops[0], 'b': tops[1], 'text': blk[:2500]})
+            reports.append({'a': tops[0], 'b': tops[1], 'kinds': kinds, 'text': blk[:2500]})
     return reports
 
 
@@ -72,6 +89,21 @@ def run(prop, tier, verdict):
     rc3, out3, err3, wall3 = vlib.run_harness(binary, ['hub', '-in', f3, '-out', os.path.join(wd, 'hub.tr'), '-summary', os.path.join(wd, 'hub.sum')], timeout=1800, env=env)
     runs.append(('hub', len(hsel), rc3, wall3))
     stderr_all += err3
+    # 4. peer-level histories (ServeConn / accept loop / Dial, hook verdicts, Close, cut, Peer.Close) and
+    #    5. redial fault sequences (loopback TCP), 6. accept-phase scenarios with the auth checker
+    extra = [('peerlife', 'Peer', {'MaxOps': '5', 'Slots': '{1, 2}'}, 'VIEW view', 260 if tier == 'thorough' else 90, lambda s: len(s.get('steps', [])) >= 4),
+             ('redial', 'Redial', {'MaxOps': '7', 'Budgets': '{0, 2, 3, 99}'}, 'VIEW view', 200 if tier == 'thorough' else 60, lambda s: len(s.get('steps', [])) >= 5 and s['steps'][0].get('budget') != 3),
+             ('auth', 'Accept', {}, '', 300 if tier == 'thorough' else 100, lambda s: s.get('pipe') != 'none')]
+    for drv, module, consts, xcfg, k, pick in extra:
+        allc = [s for s in eng_generic.export(wd, module, consts, extra_cfg=xcfg) if pick(s)]
+        selx = rnd.sample(allc, min(k, len(allc)))
+        for i, s in enumerate(selx):
+            s['id'] = '%s%d' % (drv[0], i)
+        fx = os.path.join(wd, drv + '.ndjson')
+        open(fx, 'w').write(''.join(json.dumps(s) + '\n' for s in selx))
+        rcx, outx, errx, wallx = vlib.run_harness(binary, [drv, '-in', fx, '-out', os.path.join(wd, drv + '.tr'), '-seed', str(seedv)], timeout=1800, env=env)
+        runs.append((drv, len(selx), rcx, wallx))
+        stderr_all += errx
     for name, n, rc_, w in runs:
         log('[race] %s: %d programs, rc=%d, %.0fs' % (name, n, rc_, w))
         if rc_ not in (0, 66):
@@ -85,7 +117,7 @@ def run(prop, tier, verdict):
     ignored = 0
     for r in reps:
         fa, fb = r['a'][0], r['b'][0]
-        if not (fa.startswith(REPO) and fb.startswith(REPO)):
+        if r['kinds'] != ['repo', 'repo']:
             ignored += 1
             continue
         key = ' | '.join(sorted(['%s(%s)' % (fa.replace(REPO + '/', '').replace(REPO, 'erpc'), r['a'][1]), '%s(%s)' % (fb.replace(REPO + '/', '').replace(REPO, 'erpc'), r['b'][1])]))
@@ -97,7 +129,7 @@ def run(prop, tier, verdict):
         verdict.report('%s:race:%s' % (prop, key), {'occurrences': v['n'], 'report': v['text']}, {'engine': 'race', 'seed': seedv})
     programs = sum(n for _, n, _, _ in runs)
     cov = {'evaluations': programs, 'distinct_nontrivial': programs,
-           'rule': 'concurrent programs generated from Workload.tla (>= 4 goroutines per session), SessionGen.tla behaviours (free-running) and Hub.tla histories, executed under the Go race detector; a report counts when both access stacks have their innermost non-runtime frame in the repository',
+           'rule': 'concurrent programs generated from Workload.tla (>= 4 goroutines per session), SessionGen.tla behaviours (free-running), Hub.tla histories, Peer.tla histories, Redial.tla fault sequences and Accept.tla scenarios, executed under the Go race detector; a report counts when, in both access stacks, the first frame that is not Go runtime / standard library belongs to the repository',
            'race_reports': len(reps), 'reports_outside_repo_ignored': ignored, 'distinct_repo_races': len(seen),
            'samples': [{'engine': n, 'programs': k} for n, k, _, _ in runs]}
     vlib.cleanup(wd)
